@@ -119,6 +119,17 @@ def run(ctx):
     # Q-limit loop as it entered it, otherwise the OPF constraints are built on a demand reduced by the clamped generators
     from rules.C04 import rule_qlim
     rule_qlim(ctx)
+    RD = "DC-BALANCE"
+    ctx.rule(RD, "the nodal balance of the DC OPF (opf_setup: bmis) contains the active demand PD and the shunt conductance GS, like the DC "
+                 "power flow (run_dc_pf: Pbus = ... - bus[:, GS] / baseMVA): otherwise rundcpp with the OPF dispatch does not reproduce the result")
+    fo = ctx.repo.func("pandapower.pypower.opf_setup:opf_setup")
+    bm = next((st for st in ast.walk(fo.node) if isinstance(st, ast.Assign) and norm(st.targets[0], 10) == "bmis"), None)
+    t = norm(bm.value, 120) if bm is not None else ""
+    ctx.ob(RD, "pandapower.pypower.opf_setup::opf_setup::bmis", "PD" in t and "GS" in t and "Pbusinj" in t, f"bmis = {t}", fo.loc(bm) if bm is not None else fo.loc())
+    fd = ctx.repo.func("pandapower.pf.run_dc_pf:_run_dc_pf")
+    pb = next((st for st in ast.walk(fd.node) if isinstance(st, ast.Assign) and norm(st.targets[0], 10) == "Pbus"), None)
+    t2 = norm(pb.value, 120) if pb is not None else ""
+    ctx.ob(RD, "pandapower.pf.run_dc_pf::_run_dc_pf::Pbus", "GS" in t2 and "Pbusinj" in t2 and "makeSbus" in t2, f"Pbus = {t2}", fd.loc(pb) if pb is not None else fd.loc())
     RN = "NULLABLE-FLAG"
     ctx.rule(RN, "load / sgen / storage.controllable is an optional, nullable column (schema): _select_is_elements_numba fills NaN with "
                  "False before the cast to bool (NaN casts to True: a load without a flag would become dispatchable in rundcopp, which does "
@@ -246,6 +257,7 @@ def variants(repo):
         V("partial limit assignment chosen with all()", bg, in_function("_check_gen_vm_limits", lambda s: s.replace("        if np.any(v_max_bound):", "        if np.all(v_max_bound):", 2).replace("    if np.all(v_max_bound):\n        bound_gens", "    if np.any(v_max_bound):\n        bound_gens", 1)), "PARTIAL-ELSE"),
         V("dc flow bound sign", "pandapower/pypower/opf_setup.py", replace_once("upt = branch[il, RATE_A] / baseMVA + Pfinj[il]", "upt = branch[il, RATE_A] / baseMVA - Pfinj[il]"), "DC-FLOW-LIMIT"),
         V("dcline to-side gen with from-side q limit", "pandapower/auxiliary.py", in_function("_add_dcline_gens", replace_once("max_q_mvar=dctab.max_q_to_mvar", "max_q_mvar=dctab.max_q_from_mvar")), "DCLINE-SIDE"),
+        V("dc opf balance without shunt conductance", "pandapower/pypower/opf_setup.py", replace_once("bmis = -(bus[:, PD] + bus[:, GS]) / baseMVA - Pbusinj", "bmis = -bus[:, PD] / baseMVA - Pbusinj"), "DC-BALANCE"),
         V("controllable NaN cast to True", "pandapower/auxiliary.py", replace_once("controllable = net[element_table].controllable.fillna(False).values.astype(bool)", "controllable = net[element_table].controllable.values.astype(bool)"), "NULLABLE-FLAG"),
         V("trafo rating without derating factor", "pandapower/build_branch.py", in_function("_calc_trafo_parameter", replace_once("branch[f:t, RATE_A] = max_load / 100. * sn_mva * df * parallel", "branch[f:t, RATE_A] = max_load / 100. * sn_mva * parallel")), "RATING"),
         V("start power flow restores only the active demand", "pandapower/pf/run_newton_raphson_pf.py", replace_once("        bus[:, [PD, QD]] = bus_backup_p_q\n", "        bus[:, PD] = bus_backup_p_q[:, 0]\n"), "QLIM-LOOP"),
